@@ -1,2 +1,3 @@
 SPECIFICATION Spec
+INVARIANT UnitLaw
 INVARIANT Report
